@@ -77,7 +77,8 @@ ConstA(tier, kid) == IF FieldBits(kid) = 8 THEN (IF tier = "q" THEN {0, 1, 142} 
 (* constants run over the reduced size set *)
 ConstB(tier, kid) == IF FieldBits(kid) = 8 THEN (IF tier = "q" THEN {2, 3, 29, 83, 128, 202, 255} ELSE 0 .. 255)
                      ELSE (IF tier = "q" THEN {2, 7, 15} ELSE 0 .. 15)
-SizesB(tier) == {0, 1, 15, 16, 17, 33, MaxSize(tier)}
+SizesB(tier) == IF tier = "q" THEN {0, 1, 15, 16, 17, 33, 40}
+                ELSE {0, 1, 7, 8, 15, 16, 17, 31, 32, 33, 47, 48, 49, 64, 65, 80}
 
 GroupSet(tier, kid) ==
     LET L == MaxSize(tier)  N == MaxCount(tier)
@@ -95,10 +96,10 @@ AlStagger(nb) == [ k \in 1 .. 8 |-> [ b \in 1 .. nb |-> (k - 1 + b - 1) % 8 ] ]
 AlJoint(nb) == AlUniform(nb) \o AlStagger(nb)
 
 (* every operand independently for up to 3 buffers (operand counts <= 2), jointly otherwise;
-   pattern 1 and the reduced-size constant sweep use the uniform / joint vectors only *)
+   the reduced-size constant sweep and, in tier "q", pattern 1 use the joint / uniform vectors only *)
 AlSeq(tier, kid, n, p, c) ==
     LET nb == NBuf(kid, n)
-    IN  IF p = 1 THEN AlUniform(nb)
+    IN  IF p = 1 /\ tier = "q" THEN AlUniform(nb)
         ELSE IF kid >= 3 /\ c \notin ConstA(tier, kid) THEN AlJoint(nb)
         ELSE IF nb <= 3 THEN AlAll(nb)
         ELSE AlJoint(nb)
